@@ -1,6 +1,9 @@
 (* C16 - proofs.  For every record kind: [serde_ok_X x && is_ok (parse_X x) = valid_X x] (the structural checks
    of serde followed by `unserialize` succeed exactly on the documented-valid inputs), assembled into
-   [is_ok (parse d) = valid d].  The monadic chains are turned into the conjunction of their steps' conditions
+   [is_ok (parse d) = valid d] outside the two known classes.  For file entries the code is first characterised by
+   the table as it applies it ([valid_file_lax], a null on a forbidden field passes); [valid_file] is that minus
+   [file_null_forbidden] ([valid_file_split]).  [parse_strip]: the code reads a document exactly as it reads the
+   document with those nulls left out.  The monadic chains are turned into the conjunction of their steps' conditions
    by [okb]/[ok_norm]; the remaining goal is a boolean tautology over opaque atoms ([btauto]). *)
 From Slinky Require Import Model.Types Model.Generated Model.Parse Spec.C08 Spec.C16 Proofs.C08.
 From Coq Require Import Btauto Lia.
@@ -209,15 +212,46 @@ Proof. induction l as [|x l IH]; [reflexivity|]. cbn [map_res]. rewrite IH. refl
 Lemma kind_from_path_cases p : kind_from_path p = KObject \/ kind_from_path p = KArchive.
 Proof. unfold kind_from_path. destruct (extension_of p) as [e|]; [destruct (String.eqb e "a")|]; auto. Qed.
 
-Lemma meets_required {A} (x : an A) : meets Required x = has_value x. Proof. destruct x; reflexivity. Qed.
-Lemma meets_optional {A} (x : an A) : meets Optional x = not_null x. Proof. destruct x; reflexivity. Qed.
-Lemma meets_forbidden {A} (x : an A) : meets Forbidden x = negb (has_value x). Proof. destruct x; reflexivity. Qed.
+(* the table as the code applies it: a null on a forbidden field passes ([forbid] only asks [has_value]) *)
+Definition meets_lax {A} (r : rule) (x : an A) : bool :=
+  match r, x with Forbidden, Null => true | _, _ => meets r x end.
+
+Definition kind_table_lax (k : file_kind) (f : file_serial) : bool :=
+  meets_lax (rule_path k) (fs_path f) &&
+  meets_lax (rule_subfile k) (fs_subfile f) &&
+  meets_lax (rule_pad_amount k) (fs_pad_amount f) &&
+  meets_lax (rule_section k) (fs_section f) &&
+  meets_lax (rule_linker_offset_name k) (fs_linker_offset_name f) &&
+  meets_lax (rule_section_order k) (fs_section_order f) &&
+  meets_lax (rule_files k) (fs_files f) &&
+  meets_lax (rule_dir k) (fs_dir f).
+
+Fixpoint valid_file_lax (f : file_serial) : bool :=
+  no_unknown_keys (fs_unknown f) &&
+  keep_well_typed (fs_keep f) &&
+  valid_conds (fs_conds f) &&
+  if_given nonempty_str (fs_path f) &&
+  if_given nodup_keys (fs_section_order f) &&
+  match effective_kind f with Some k => kind_table_lax k f | None => false end &&
+  match fs_files f with
+  | Value l => (fix all (l : list file_serial) : bool :=
+                  match l with [] => true | x :: r => valid_file_lax x && all r end) l
+  | _ => true
+  end.
+
+Lemma meets_required {A} (x : an A) : meets_lax Required x = has_value x. Proof. destruct x; reflexivity. Qed.
+Lemma meets_optional {A} (x : an A) : meets_lax Optional x = not_null x. Proof. destruct x; reflexivity. Qed.
+Lemma meets_forbidden {A} (x : an A) : meets_lax Forbidden x = negb (has_value x). Proof. destruct x; reflexivity. Qed.
 
 Ltac fold_all :=
   change ((fix all (l : list file_serial) {struct l} : bool :=
+             match l with [] => true | x :: r => valid_file_lax x && all r end)) with (forallb valid_file_lax) in *;
+  change ((fix all (l : list file_serial) {struct l} : bool :=
              match l with [] => true | x :: r => valid_file x && all r end)) with (forallb valid_file) in *;
   change ((fix all (l : list file_serial) {struct l} : bool :=
-             match l with [] => true | x :: r => serde_ok_file x && all r end)) with (forallb serde_ok_file) in *.
+             match l with [] => true | x :: r => serde_ok_file x && all r end)) with (forallb serde_ok_file) in *;
+  change ((fix any (l : list file_serial) {struct l} : bool :=
+             match l with [] => false | x :: r => file_null_forbidden x || any r end)) with (existsb file_null_forbidden) in *.
 
 (* the kind is known: the rest of the entry, field by field *)
 Ltac file_case files IH :=
@@ -230,10 +264,11 @@ Ltac file_case files IH :=
   try (rewrite <- (list_ok _ _ _ l IH));
   cbn [has_value not_null is_null negb is_ok]; btauto.
 
-Lemma file_ok : forall f, serde_ok_file f && is_ok (parse_file f) = valid_file f.
+(* serde's checks followed by `unserialize` succeed exactly on the entries that meet the table as the code applies it *)
+Lemma file_ok_lax : forall f, serde_ok_file f && is_ok (parse_file f) = valid_file_lax f.
 Proof.
   apply file_serial_ind'. intros u p k sf pa se lon so files d c kp IH. unfold all_sub in IH.
-  cbn [parse_file serde_ok_file valid_file]. unfold effective_kind, kind_table.
+  cbn [parse_file serde_ok_file valid_file_lax]. unfold effective_kind, kind_table_lax.
   cbn [fs_unknown fs_path fs_kind fs_subfile fs_pad_amount fs_section fs_linker_offset_name fs_section_order fs_files fs_dir fs_conds fs_keep].
   fold_all.
   destruct k as [| |k].
@@ -245,16 +280,46 @@ Proof.
   - cbn [get_non_null_no_default bind is_ok]. btauto.
   - cbn [get_non_null_no_default bind].
     destruct k; cbn [is_objlike file_kind_eqb orb].
-    + destruct p as [| |p]; cbn [get_required bind is_ok rule_path meets]; [btauto | btauto |].
+    + destruct p as [| |p]; cbn [get_required bind is_ok rule_path meets_lax meets]; [btauto | btauto |].
       cbn [if_given]. unfold nonempty_str. destruct (is_empty p) eqn:Ep; cbn [bind is_ok negb]; [btauto|].
       file_case files IH.
-    + destruct p as [| |p]; cbn [get_required bind is_ok rule_path meets]; [btauto | btauto |].
+    + destruct p as [| |p]; cbn [get_required bind is_ok rule_path meets_lax meets]; [btauto | btauto |].
       cbn [if_given]. unfold nonempty_str. destruct (is_empty p) eqn:Ep; cbn [bind is_ok negb]; [btauto|].
       file_case files IH.
-    + destruct p as [| |p]; cbn [has_value bind is_ok rule_path meets]; [ | | btauto]; file_case files IH.
-    + destruct p as [| |p]; cbn [has_value bind is_ok rule_path meets]; [ | | btauto]; file_case files IH.
-    + destruct p as [| |p]; cbn [has_value bind is_ok rule_path meets]; [ | | btauto]; file_case files IH.
+    + destruct p as [| |p]; cbn [has_value bind is_ok rule_path meets_lax meets]; [ | | btauto]; file_case files IH.
+    + destruct p as [| |p]; cbn [has_value bind is_ok rule_path meets_lax meets]; [ | | btauto]; file_case files IH.
+    + destruct p as [| |p]; cbn [has_value bind is_ok rule_path meets_lax meets]; [ | | btauto]; file_case files IH.
 Qed.
+
+(* the documented table = the table of the code, minus the nulls on forbidden fields *)
+Lemma meets_split {A} (r : rule) (x : an A) : meets r x = meets_lax r x && negb (null_on_forbidden r x).
+Proof. destruct r, x; reflexivity. Qed.
+
+Lemma kind_table_split k f : kind_table k f = kind_table_lax k f && negb (kind_null_forbidden k f).
+Proof. unfold kind_table, kind_table_lax, kind_null_forbidden. rewrite !meets_split. btauto. Qed.
+
+Lemma forallb_split {A} (v w : A -> bool) (n : A -> bool) l :
+  Forall (fun x => v x = w x && negb (n x)) l -> forallb v l = forallb w l && negb (existsb n l).
+Proof. induction 1 as [|x l Hx _ IH]; [reflexivity|]. cbn [forallb existsb]. rewrite Hx, IH. btauto. Qed.
+
+Lemma valid_file_split : forall f, valid_file f = valid_file_lax f && negb (file_null_forbidden f).
+Proof.
+  apply file_serial_ind'. intros u p k sf pa se lon so files d c kp IH. unfold all_sub in IH.
+  cbn [valid_file valid_file_lax file_null_forbidden]. fold_all.
+  destruct (effective_kind (FileSerial u p k sf pa se lon so files d c kp)) as [ek|].
+  - rewrite kind_table_split. cbn [fs_files]. destruct files as [| |l]; [btauto | btauto |].
+    rewrite (forallb_split _ _ _ l IH). btauto.
+  - btauto.
+Qed.
+
+Lemma file_ok : forall f, file_null_forbidden f = false -> serde_ok_file f && is_ok (parse_file f) = valid_file f.
+Proof. intros f H. rewrite file_ok_lax, valid_file_split, H. btauto. Qed.
+
+Lemma valid_file_is_lax f : valid_file f = true -> valid_file_lax f = true.
+Proof. rewrite valid_file_split. intro H. apply andb_true_iff in H. apply H. Qed.
+
+Lemma valid_file_no_null_forbidden f : valid_file f = true -> file_null_forbidden f = false.
+Proof. rewrite valid_file_split. intro H. apply andb_true_iff in H. apply negb_true_iff. apply H. Qed.
 
 (* ---------- segments ---------- *)
 
@@ -305,8 +370,15 @@ Lemma at_most_one a b c d :
   negb (a && b) && negb (a && c) && negb (a && d) && negb (b && c) && negb (b && d) && negb (c && d).
 Proof. destruct a, b, c, d; reflexivity. Qed.
 
-Lemma files_ok l : forallb serde_ok_file l && is_ok (map_res parse_file l) = forallb valid_file l.
-Proof. apply list_ok. apply Forall_forall. intros x _. apply file_ok. Qed.
+Lemma files_ok_lax l : forallb serde_ok_file l && is_ok (map_res parse_file l) = forallb valid_file_lax l.
+Proof. apply list_ok. apply Forall_forall. intros x _. apply file_ok_lax. Qed.
+
+Lemma files_split l : forallb valid_file l = forallb valid_file_lax l && negb (existsb file_null_forbidden l).
+Proof. apply forallb_split. apply Forall_forall. intros x _. apply valid_file_split. Qed.
+
+Lemma files_ok l : existsb file_null_forbidden l = false ->
+  forallb serde_ok_file l && is_ok (map_res parse_file l) = forallb valid_file l.
+Proof. intro H. rewrite files_ok_lax, files_split, H. btauto. Qed.
 
 Ltac seg_finish n Hn :=
   rewrite ?is_some_an_opt;
@@ -314,14 +386,14 @@ Ltac seg_finish n Hn :=
   destruct n as [| |n]; [ | discriminate Hn | ];
   cbn [plain_str opt_str is_some required_str not_null is_null negb andb is_ok]; unfold nonempty_str; btauto.
 
-Lemma segment_ok gs st s : settings_link gs st -> is_null (ss_name s) = false ->
+Lemma segment_ok gs st s : settings_link gs st -> is_null (ss_name s) = false -> segment_null_forbidden s = false ->
   serde_ok_segment s && is_ok (parse_segment st s) = valid_segment gs s.
 Proof.
-  intros L Hn.
+  intros L Hn Hf. unfold segment_null_forbidden in Hf.
   destruct s as [u n fl fv fs fo vc dir gp c al nl sa ssa sea csa cea sssa ssea w fill sg kp].
-  unfold serde_ok_segment, parse_segment, valid_segment. proj_goal. cbn [ss_name] in Hn.
-  destruct fl as [l|]; [| cbn; btauto ]. cbn [opt_ok opt_list].
-  rewrite <- files_ok, at_most_one.
+  unfold serde_ok_segment, parse_segment, valid_segment. proj_goal. cbn [ss_name] in Hn. cbn [ss_files] in Hf.
+  destruct fl as [l|]; [| cbn; btauto ]. cbn [opt_ok opt_list] in *.
+  rewrite <- (files_ok l Hf), at_most_one.
   destruct gp as [| |g]; cbn [an_ok if_given].
   - ok_norm. seg_finish n Hn.
   - ok_norm. seg_finish n Hn.
@@ -356,25 +428,30 @@ Proof. unfold parse. destruct (serde_ok d); reflexivity. Qed.
 Ltac proj_ds := cbn [ds_unknown ds_settings ds_vram_classes ds_segments ds_entry ds_symbol_assignments
                      ds_required_symbols ds_asserts] in *.
 
-Lemma doc_ok d : Known_C16_null_plain_string d = false -> is_ok (parse d) = valid d.
+Lemma Forall_and {A} (P Q : A -> Prop) l : Forall P l -> Forall Q l -> Forall (fun x => P x /\ Q x) l.
+Proof. induction 1 as [|x l Hp _ IH]; intro H; inversion H; subst; constructor; auto. Qed.
+
+Lemma doc_ok d : Known_C16_null_plain_string d = false -> Known_C16_null_forbidden_field d = false ->
+  is_ok (parse d) = valid d.
 Proof.
-  intro K. unfold Known_C16_null_plain_string in K.
+  intros K F. unfold Known_C16_null_plain_string in K. unfold Known_C16_null_forbidden_field in F.
   repeat (apply orb_false_iff in K; let K' := fresh "K" in destruct K as [K K']).
   rewrite is_ok_parse.
   destruct d as [u gs cl sg en asg rq ats]. unfold serde_ok, unserialize_document, valid. proj_ds.
   destruct sg as [sl|]; [ | cbn; btauto]. cbn [opt_ok opt_list] in *.
   rewrite !an_ok_forallb.
-  apply existsb_false_Forall in K, K0, K1, K2, K3.
+  apply existsb_false_Forall in K, K0, K1, K2, K3, F.
+  pose proof (Forall_and _ _ _ K F) as KF.
   rewrite <- (list_ok_if _ _ _ _ _ class_ok K3).
   rewrite <- (list_ok_if _ _ parse_assign _ _ (fun a H => assign_ok a (proj1 (proj1 (orb_false_iff _ _) H)) (proj2 (proj1 (orb_false_iff _ _) H))) K2).
   rewrite <- (list_ok_if _ _ _ _ _ required_ok K1).
   rewrite <- (list_ok_if _ _ parse_assert _ _ (fun a H => assert_ok a (proj1 (proj1 (orb_false_iff _ _) H)) (proj2 (proj1 (orb_false_iff _ _) H))) K0).
   destruct gs as [| |g]; cbn [get_non_null_no_default bind an_ok if_given].
-  - rewrite <- (list_ok_if _ _ _ _ _ (fun s => segment_ok Absent default_settings s eq_refl) K).
+  - rewrite <- (list_ok_if _ _ _ _ _ (fun s H => segment_ok Absent default_settings s eq_refl (proj1 H) (proj2 H)) KF).
     ok_norm. rewrite !an_or_nil. unfold no_unknown, no_unknown_keys. cbn [not_null is_null negb]. btauto.
   - cbn. btauto.
   - rewrite <- settings_ok. destruct (parse_settings g) as [st|e] eqn:Eg; cbn [bind is_ok].
-    + rewrite <- (list_ok_if _ _ _ _ _ (fun s => segment_ok (Value g) st s Eg) K).
+    + rewrite <- (list_ok_if _ _ _ _ _ (fun s H => segment_ok (Value g) st s Eg (proj1 H) (proj2 H)) KF).
       ok_norm. rewrite !an_or_nil. unfold no_unknown, no_unknown_keys. cbn [not_null is_null negb]. btauto.
     + btauto.
 Qed.
@@ -413,29 +490,300 @@ Proof.
     apply orb_false_iff. split; apply required_str_not_null; assumption.
 Qed.
 
+(* ... and no null on a forbidden file-entry field *)
+Lemma forallb_valid_file_no_null l : forallb valid_file l = true -> existsb file_null_forbidden l = false.
+Proof. apply forallb_existsb. exact valid_file_no_null_forbidden. Qed.
+
+Lemma valid_no_known_forbidden d : valid d = true -> Known_C16_null_forbidden_field d = false.
+Proof.
+  unfold valid, Known_C16_null_forbidden_field. intro H. split_and H.
+  eapply forallb_existsb; [|eassumption]. intros s Hs. unfold valid_segment in Hs. split_and Hs.
+  unfold segment_null_forbidden. apply forallb_valid_file_no_null. assumption.
+Qed.
+
 Lemma valid_is_accepted d : valid d = true -> exists doc, parse d = Ok doc.
 Proof.
-  intro H. pose proof (doc_ok d (valid_no_known d H)) as E. rewrite H in E.
+  intro H. pose proof (doc_ok d (valid_no_known d H) (valid_no_known_forbidden d H)) as E. rewrite H in E.
   destruct (parse d) as [doc|e]; [exists doc; reflexivity | discriminate E].
 Qed.
 
-Lemma invalid_is_error d : valid d = false -> Known_C16_null_plain_string d = false -> exists e, parse d = Err e.
+Lemma invalid_is_error d : valid d = false ->
+  Known_C16_null_plain_string d = false -> Known_C16_null_forbidden_field d = false -> exists e, parse d = Err e.
 Proof.
-  intros H K. pose proof (doc_ok d K) as E. rewrite H in E.
+  intros H K F. pose proof (doc_ok d K F) as E. rewrite H in E.
   destruct (parse d) as [doc|e]; [discriminate E | exists e; reflexivity].
 Qed.
 
-Lemma accepted_is_valid d doc : parse d = Ok doc -> Known_C16_null_plain_string d = false -> valid d = true.
-Proof. intros H K. rewrite <- (doc_ok d K), H. reflexivity. Qed.
+Lemma accepted_is_valid d doc : parse d = Ok doc ->
+  Known_C16_null_plain_string d = false -> Known_C16_null_forbidden_field d = false -> valid d = true.
+Proof. intros H K F. rewrite <- (doc_ok d K F), H. reflexivity. Qed.
 
-(* ---------- the known deviation, witnessed ---------- *)
+(* ---------- the second known deviation: the code reads the document without the forbidden nulls ---------- *)
+
+Lemma drop_required {A} (x : an A) : drop_null Required x = x. Proof. reflexivity. Qed.
+Lemma drop_optional {A} (x : an A) : drop_null Optional x = x. Proof. reflexivity. Qed.
+Lemma has_value_drop {A} r (x : an A) : has_value (drop_null r x) = has_value x.
+Proof. destruct r, x; reflexivity. Qed.
+Lemma forbid_drop {A} r (x : an A) a b : forbid (drop_null r x) a b = forbid x a b.
+Proof. unfold forbid. rewrite has_value_drop. reflexivity. Qed.
+
+Lemma map_res_map_ext {A B} (g : A -> A) (p : A -> res B) l :
+  Forall (fun x => p (g x) = p x) l -> map_res p (map g l) = map_res p l.
+Proof. induction 1 as [|x l Hx _ IH]; [reflexivity|]. cbn [map map_res]. rewrite Hx, IH. reflexivity. Qed.
+
+Ltac fold_strip :=
+  change ((fix go (l : list file_serial) {struct l} : list file_serial :=
+             match l with [] => [] | x :: r => file_without_forbidden_nulls x :: go r end))
+    with (map file_without_forbidden_nulls) in *.
+
+Ltac proj_fs := cbn [fs_unknown fs_path fs_kind fs_subfile fs_pad_amount fs_section fs_linker_offset_name
+                     fs_section_order fs_files fs_dir fs_conds fs_keep].
+
+Ltac strip_rest files IH :=
+  cbn [is_archive is_pad is_offset is_group is_objlike file_kind_eqb orb];
+  rewrite ?has_value_drop, ?forbid_drop;
+  destruct files as [| |l]; try reflexivity;
+  rewrite !inner_fix, (map_res_map_ext _ _ l IH); reflexivity.
+
+Ltac strip_start :=
+  cbn [rule_path rule_subfile rule_pad_amount rule_section rule_linker_offset_name rule_section_order
+       rule_files rule_dir];
+  rewrite ?drop_required, ?drop_optional;
+  cbn [parse_file]; proj_fs; cbn [get_non_null_no_default bind is_objlike file_kind_eqb orb].
+
+Lemma parse_file_strip : forall f, parse_file (file_without_forbidden_nulls f) = parse_file f.
+Proof.
+  apply file_serial_ind'. intros u p k sf pa se lon so files d c kp IH. unfold all_sub in IH.
+  cbn [file_without_forbidden_nulls]. unfold effective_kind. proj_fs. fold_strip.
+  destruct k as [| |k].
+  - destruct p as [| |p]; [reflexivity | reflexivity |].
+    destruct (kind_from_path_cases p) as [Ek|Ek]; rewrite Ek; strip_start; cbn [get_required bind];
+      (destruct (is_empty p); [reflexivity|]); cbn [bind]; rewrite Ek; strip_rest files IH.
+  - reflexivity.
+  - destruct k; strip_start.
+    + destruct p as [| |p]; [reflexivity | reflexivity |]. cbn [get_required bind].
+      destruct (is_empty p); [reflexivity|]. cbn [bind]. strip_rest files IH.
+    + destruct p as [| |p]; [reflexivity | reflexivity |]. cbn [get_required bind].
+      destruct (is_empty p); [reflexivity|]. cbn [bind]. strip_rest files IH.
+    + rewrite has_value_drop. destruct (has_value p); [reflexivity|]. cbn [bind]. strip_rest files IH.
+    + rewrite has_value_drop. destruct (has_value p); [reflexivity|]. cbn [bind]. strip_rest files IH.
+    + rewrite has_value_drop. destruct (has_value p); [reflexivity|]. cbn [bind]. strip_rest files IH.
+Qed.
+
+Lemma an_ok_drop {A} (g : A -> bool) r (x : an A) : an_ok g (drop_null r x) = an_ok g x.
+Proof. destruct r, x; reflexivity. Qed.
+
+Lemma forallb_map_ext {A} (g : A -> A) (v : A -> bool) l :
+  Forall (fun x => v (g x) = v x) l -> forallb v (map g l) = forallb v l.
+Proof. induction 1 as [|x l Hx _ IH]; [reflexivity|]. cbn [map forallb]. rewrite Hx, IH. reflexivity. Qed.
+
+Lemma existsb_map_false {A} (g : A -> A) (v : A -> bool) l :
+  Forall (fun x => v (g x) = false) l -> existsb v (map g l) = false.
+Proof. induction 1 as [|x l Hx _ IH]; [reflexivity|]. cbn [map existsb]. rewrite Hx, IH. reflexivity. Qed.
+
+Lemma map_id_Forall {A} (g : A -> A) l : Forall (fun x => g x = x) l -> map g l = l.
+Proof. induction 1 as [|x l Hx _ IH]; [reflexivity|]. cbn [map]. rewrite Hx, IH. reflexivity. Qed.
+
+Lemma drop_value {A} r (v : A) : drop_null r (Value v) = Value v.
+Proof. destruct r; reflexivity. Qed.
+Lemma drop_absent {A} r : drop_null r (@Absent A) = Absent.
+Proof. destruct r; reflexivity. Qed.
+Lemma drop_null_cases {A} r : drop_null r (@Null A) = Null \/ drop_null r (@Null A) = Absent.
+Proof. destruct r; auto. Qed.
+
+Lemma serde_ok_file_strip : forall f, serde_ok_file (file_without_forbidden_nulls f) = serde_ok_file f.
+Proof.
+  apply file_serial_ind'. intros u p k sf pa se lon so files d c kp IH. unfold all_sub in IH.
+  cbn [file_without_forbidden_nulls]. fold_strip.
+  destruct (effective_kind (FileSerial u p k sf pa se lon so files d c kp)) as [ek|];
+    cbn [serde_ok_file]; proj_fs; fold_all; rewrite ?an_ok_drop;
+    (destruct files as [| |l];
+     [ rewrite ?drop_absent; reflexivity
+     | try (destruct (drop_null_cases (A:=list file_serial) (rule_files ek)) as [E|E]; rewrite E); reflexivity
+     | rewrite ?drop_value, (forallb_map_ext _ _ l IH); reflexivity ]).
+Qed.
+
+Lemma null_on_forbidden_drop {A} r (x : an A) : null_on_forbidden r (drop_null r x) = false.
+Proof. destruct r, x; reflexivity. Qed.
+
+Lemma effective_kind_strip f : effective_kind (file_without_forbidden_nulls f) = effective_kind f.
+Proof.
+  destruct f as [u p k sf pa se lon so files d c kp]. cbn [file_without_forbidden_nulls].
+  unfold effective_kind at 2 3. proj_fs.
+  destruct k as [| |k]; [ destruct p as [| |p] | | ]; try reflexivity.
+  unfold effective_kind. proj_fs. rewrite drop_value. reflexivity.
+Qed.
+
+Lemma file_null_forbidden_strip : forall f, file_null_forbidden (file_without_forbidden_nulls f) = false.
+Proof.
+  apply file_serial_ind'. intros u p k sf pa se lon so files d c kp IH. unfold all_sub in IH.
+  remember (FileSerial u p k sf pa se lon so files d c kp) as f eqn:Ef.
+  destruct (file_without_forbidden_nulls f) as [u' p' k' sf' pa' se' lon' so' files' d' c' kp'] eqn:Es.
+  cbn [file_null_forbidden]. rewrite <- Es, effective_kind_strip, Es. proj_fs. fold_all.
+  subst f. cbn [file_without_forbidden_nulls] in Es. fold_strip.
+  destruct (effective_kind (FileSerial u p k sf pa se lon so files d c kp)) as [ek|]; injection Es as <- <- <- <- <- <- <- <- <- <- <- <-; proj_fs.
+  - unfold kind_null_forbidden. proj_fs. rewrite !null_on_forbidden_drop. cbn [orb].
+    destruct files as [| |l].
+    + rewrite drop_absent. reflexivity.
+    + destruct (drop_null_cases (A:=list file_serial) (rule_files ek)) as [E|E]; rewrite E; reflexivity.
+    + rewrite drop_value. apply existsb_map_false. exact IH.
+  - cbn [orb]. destruct files as [| |l]; try reflexivity. apply existsb_map_false. exact IH.
+Qed.
+
+Lemma drop_null_id {A} r (x : an A) : null_on_forbidden r x = false -> drop_null r x = x.
+Proof. destruct r, x; cbn; congruence. Qed.
+
+Lemma existsb_false_Forall_imp {A} (f : A -> bool) (P : A -> Prop) l :
+  Forall (fun x => f x = false -> P x) l -> existsb f l = false -> Forall P l.
+Proof.
+  induction 1 as [|x l Hx _ IH]; [constructor|]. cbn [existsb]. intro H.
+  apply orb_false_iff in H. destruct H as [H1 H2]. constructor; auto.
+Qed.
+
+Lemma file_strip_id : forall f, file_null_forbidden f = false -> file_without_forbidden_nulls f = f.
+Proof.
+  apply (file_serial_ind' (fun f => file_null_forbidden f = false -> file_without_forbidden_nulls f = f)).
+  intros u p k sf pa se lon so files d c kp IH. unfold all_sub in IH.
+  cbn [file_null_forbidden file_without_forbidden_nulls]. fold_all. fold_strip. intro H.
+  apply orb_false_iff in H. destruct H as [Hk Hl].
+  assert (S : match fs_files (FileSerial u p k sf pa se lon so files d c kp) with
+              | Value l => Value (map file_without_forbidden_nulls l) | Null => Null | Absent => Absent end = files).
+  { proj_fs. cbn [fs_files] in Hl. destruct files as [| |l]; try reflexivity.
+    rewrite (map_id_Forall _ l (existsb_false_Forall_imp _ _ l IH Hl)). reflexivity. }
+  rewrite S.
+  destruct (effective_kind (FileSerial u p k sf pa se lon so files d c kp)) as [ek|]; proj_fs; [|reflexivity].
+  unfold kind_null_forbidden in Hk. cbn [fs_path fs_subfile fs_pad_amount fs_section fs_linker_offset_name fs_section_order fs_files fs_dir] in Hk.
+  repeat (apply orb_false_iff in Hk; let Hk' := fresh "Hk" in destruct Hk as [Hk Hk']).
+  rewrite !drop_null_id by assumption. reflexivity.
+Qed.
+
+Lemma file_ok_stripped f : serde_ok_file f && is_ok (parse_file f) = valid_file (file_without_forbidden_nulls f).
+Proof.
+  rewrite <- (file_ok _ (file_null_forbidden_strip f)), serde_ok_file_strip, parse_file_strip. reflexivity.
+Qed.
+
+Lemma map_res_strip l : map_res parse_file (map file_without_forbidden_nulls l) = map_res parse_file l.
+Proof. apply map_res_map_ext. apply Forall_forall. intros x _. apply parse_file_strip. Qed.
+
+Lemma parse_segment_strip st s : parse_segment st (segment_without_forbidden_nulls s) = parse_segment st s.
+Proof.
+  destruct s as [u n fl fv fs fo vc dir gp c al nl sa ssa sea csa cea sssa ssea w fill sg kp].
+  unfold parse_segment, segment_without_forbidden_nulls, ss_with_files. proj_goal.
+  destruct fl as [l|]; [|reflexivity]. cbn [option_map]. rewrite map_res_strip.
+  destruct l; reflexivity.
+Qed.
+
+Lemma serde_ok_segment_strip s : serde_ok_segment (segment_without_forbidden_nulls s) = serde_ok_segment s.
+Proof.
+  destruct s as [u n fl fv fs fo vc dir gp c al nl sa ssa sea csa cea sssa ssea w fill sg kp].
+  unfold serde_ok_segment, segment_without_forbidden_nulls, ss_with_files. proj_goal.
+  destruct fl as [l|]; [|reflexivity]. cbn [option_map opt_ok].
+  rewrite (forallb_map_ext file_without_forbidden_nulls serde_ok_file l); [reflexivity|].
+  apply Forall_forall. intros x _. apply serde_ok_file_strip.
+Qed.
+
+Lemma segment_null_forbidden_strip s : segment_null_forbidden (segment_without_forbidden_nulls s) = false.
+Proof.
+  destruct s as [u n fl fv fs fo vc dir gp c al nl sa ssa sea csa cea sssa ssea w fill sg kp].
+  unfold segment_null_forbidden, segment_without_forbidden_nulls, ss_with_files. proj_goal.
+  destruct fl as [l|]; [|reflexivity]. cbn [option_map opt_list].
+  apply existsb_map_false. apply Forall_forall. intros x _. apply file_null_forbidden_strip.
+Qed.
+
+Lemma segment_strip_id s : segment_null_forbidden s = false -> segment_without_forbidden_nulls s = s.
+Proof.
+  destruct s as [u n fl fv fs fo vc dir gp c al nl sa ssa sea csa cea sssa ssea w fill sg kp].
+  unfold segment_null_forbidden, segment_without_forbidden_nulls, ss_with_files. proj_goal.
+  destruct fl as [l|]; [|reflexivity]. cbn [option_map opt_list]. intro H.
+  rewrite (map_id_Forall file_without_forbidden_nulls l); [reflexivity|].
+  eapply existsb_false_Forall_imp; [|exact H]. apply Forall_forall. intros x _. apply file_strip_id.
+Qed.
+
+Lemma map_res_ext_map {A B} (g : A -> A) (p : A -> res B) l :
+  (forall x, p (g x) = p x) -> map_res p (map g l) = map_res p l.
+Proof. intro H. apply map_res_map_ext. apply Forall_forall. intros x _. apply H. Qed.
+
+Lemma forallb_ext_map {A} (g : A -> A) (v : A -> bool) l :
+  (forall x, v (g x) = v x) -> forallb v (map g l) = forallb v l.
+Proof. intro H. apply forallb_map_ext. apply Forall_forall. intros x _. apply H. Qed.
+
+Lemma existsb_ext_map {A} (g : A -> A) (v : A -> bool) l :
+  (forall x, v (g x) = v x) -> existsb v (map g l) = existsb v l.
+Proof. intro H. induction l as [|x l IH]; [reflexivity|]. cbn [map existsb]. rewrite H, IH. reflexivity. Qed.
+
+(* the code reads a document as if the nulls on forbidden file-entry fields were not written *)
+Lemma parse_strip d : parse (without_forbidden_nulls d) = parse d.
+Proof.
+  destruct d as [u gs cl sg en asg rq ats].
+  unfold parse, serde_ok, unserialize_document, without_forbidden_nulls. proj_ds.
+  destruct sg as [sl|]; [|reflexivity]. cbn [option_map opt_ok].
+  rewrite (forallb_ext_map _ _ sl serde_ok_segment_strip).
+  assert (E : forall st, map_res (parse_segment st) (map segment_without_forbidden_nulls sl) = map_res (parse_segment st) sl).
+  { intro st. apply map_res_ext_map. apply parse_segment_strip. }
+  assert (M : forall (a b : res unit), match map segment_without_forbidden_nulls sl with [] => a | _ :: _ => b end =
+                                       match sl with [] => a | _ :: _ => b end) by (intros; destruct sl; reflexivity).
+  rewrite M. clear M.
+  match goal with |- (if ?b then _ else _) = _ => destruct b; [|reflexivity] end.
+  destruct gs as [| |g]; cbn [get_non_null_no_default bind].
+  - rewrite E. reflexivity.
+  - reflexivity.
+  - destruct (parse_settings g) as [st|e]; cbn [bind]; [rewrite E|]; reflexivity.
+Qed.
+
+Lemma known_plain_strip d : Known_C16_null_plain_string (without_forbidden_nulls d) = Known_C16_null_plain_string d.
+Proof.
+  destruct d as [u gs cl sg en asg rq ats]. unfold Known_C16_null_plain_string, without_forbidden_nulls. proj_ds.
+  destruct sg as [sl|]; [|reflexivity]. cbn [option_map opt_list].
+  rewrite (existsb_ext_map segment_without_forbidden_nulls (fun s => is_null (ss_name s)) sl); [reflexivity|].
+  intros [? ? ? ? ? ? ? ? ? ? ? ? ? ? ? ? ? ? ? ? ? ? ?]. reflexivity.
+Qed.
+
+Lemma known_forbidden_strip d : Known_C16_null_forbidden_field (without_forbidden_nulls d) = false.
+Proof.
+  destruct d as [u gs cl sg en asg rq ats]. unfold Known_C16_null_forbidden_field, without_forbidden_nulls. proj_ds.
+  destruct sg as [sl|]; [|reflexivity]. cbn [option_map opt_list].
+  apply existsb_map_false. apply Forall_forall. intros x _. apply segment_null_forbidden_strip.
+Qed.
+
+Lemma doc_strip_id d : Known_C16_null_forbidden_field d = false -> without_forbidden_nulls d = d.
+Proof.
+  destruct d as [u gs cl sg en asg rq ats]. unfold Known_C16_null_forbidden_field, without_forbidden_nulls. proj_ds.
+  destruct sg as [sl|]; [|reflexivity]. cbn [option_map opt_list]. intro H.
+  rewrite (map_id_Forall segment_without_forbidden_nulls sl); [reflexivity|].
+  eapply existsb_false_Forall_imp; [|exact H]. apply Forall_forall. intros x _. apply segment_strip_id.
+Qed.
+
+(* the complete picture outside the first class: accepted iff valid once the forbidden nulls are left out *)
+Lemma doc_ok_stripped d : Known_C16_null_plain_string d = false -> is_ok (parse d) = valid (without_forbidden_nulls d).
+Proof.
+  intro K. rewrite <- parse_strip. apply doc_ok; [rewrite known_plain_strip; exact K | apply known_forbidden_strip].
+Qed.
+
+Lemma parse_like_absent d : parse d = parse (without_forbidden_nulls d).
+Proof. symmetry. apply parse_strip. Qed.
+
+Lemma strip_leaves_class d :
+  Known_C16_null_forbidden_field (without_forbidden_nulls d) = false /\
+  Known_C16_null_plain_string (without_forbidden_nulls d) = Known_C16_null_plain_string d.
+Proof. exact (conj (known_forbidden_strip d) (known_plain_strip d)). Qed.
+
+Lemma valid_split_doc d :
+  valid d = valid (without_forbidden_nulls d) && negb (Known_C16_null_forbidden_field d).
+Proof.
+  destruct (Known_C16_null_forbidden_field d) eqn:F.
+  - destruct (valid d) eqn:V; [|btauto]. apply valid_no_known_forbidden in V. congruence.
+  - rewrite (doc_strip_id d F). btauto.
+Qed.
+
+(* ---------- the known deviations, witnessed ---------- *)
 
 Definition wit_conds : conds_serial := mkCondsSerial Absent Absent Absent Absent.
 Definition wit_file : file_serial :=
   FileSerial [] (Value "a.o") Absent Absent Absent Absent Absent Absent Absent Absent wit_conds SKAbsent.
-Definition wit_segment (name : an string) : segment_serial :=
-  SegmentSerial [] name (Some [wit_file]) Absent Absent Absent Absent Absent Absent wit_conds
+Definition wit_segment_of (name : an string) (files : list file_serial) : segment_serial :=
+  SegmentSerial [] name (Some files) Absent Absent Absent Absent Absent Absent wit_conds
     Absent Absent Absent Absent Absent Absent Absent Absent Absent Absent Absent Absent SKAbsent.
+Definition wit_segment (name : an string) : segment_serial := wit_segment_of name [wit_file].
 (* segments: [ { name: null, files: [ { path: a.o } ] } ] *)
 Definition wit_null_name : document_serial :=
   DocumentSerial [] Absent Absent (Some [wit_segment Null]) Absent Absent Absent Absent.
@@ -443,6 +791,30 @@ Definition wit_null_name : document_serial :=
 Lemma refuted_null_plain_string :
   exists sd, Known_C16_null_plain_string sd = true /\ valid sd = false /\ is_ok (parse sd) = true.
 Proof. exists wit_null_name. vm_compute. repeat split. Qed.
+
+(* segments: [ { name: boot, files: [ { path: a.o, kind: object, pad_amount: null, subfile: null } ] } ] *)
+Definition wit_file_null_forbidden : file_serial :=
+  FileSerial [] (Value "a.o") (Value KObject) Null Null Absent Absent Absent Absent Absent wit_conds SKAbsent.
+Definition wit_null_forbidden : document_serial :=
+  DocumentSerial [] Absent Absent (Some [wit_segment_of (Value "boot") [wit_file_null_forbidden]])
+    Absent Absent Absent Absent.
+
+Lemma refuted_null_forbidden_field :
+  exists sd, Known_C16_null_forbidden_field sd = true /\ valid sd = false /\ is_ok (parse sd) = true.
+Proof. exists wit_null_forbidden. vm_compute. repeat split. Qed.
+
+(* the same two levels down, on the other kinds:
+   segments: [ { name: boot, files: [ { kind: group, path: null, files:
+       [ { kind: pad, pad_amount: 16, section: .text, path: null, dir: null },
+         { path: lib.a, pad_amount: null, files: null } ] } ] } ]        (kind guessed: archive) *)
+Definition wit_nested_null_forbidden : document_serial :=
+  DocumentSerial [] Absent Absent
+    (Some [wit_segment_of (Value "boot")
+       [FileSerial [] Null (Value KGroup) Absent Absent Absent Absent Absent
+          (Value [FileSerial [] Null (Value KPad) Absent (Value 16%N) (Value ".text") Absent Absent Absent Null wit_conds SKAbsent;
+                  FileSerial [] (Value "lib.a") Absent Absent Null Absent Absent Absent Null Absent wit_conds SKAbsent])
+          Absent wit_conds SKAbsent]])
+    Absent Absent Absent Absent.
 
 (* ---------- which error: an unknown key at any of the nine levels is serde's error ---------- *)
 
@@ -536,8 +908,10 @@ Qed.
 
 Lemma valid_files_parse l : forallb valid_file l = true -> exists files, map_res parse_file l = Ok files.
 Proof.
-  intro H. rewrite <- files_ok in H. apply andb_true_iff in H. destruct H as [_ H].
-  destruct (map_res parse_file l) as [v|e]; [exists v; reflexivity | discriminate H].
+  intro H. assert (L : forallb valid_file_lax l = true).
+  { rewrite files_split in H. apply andb_true_iff in H. apply H. }
+  rewrite <- files_ok_lax in L. apply andb_true_iff in L. destruct L as [_ H'].
+  destruct (map_res parse_file l) as [v|e]; [exists v; reflexivity | discriminate H'].
 Qed.
 
 Ltac split_all :=
